@@ -312,11 +312,20 @@ def run_part(tier, work, mir, which):
         reqs.append(bytes(inp))
     eng = mengine.pmap(_concrete, reqs)
     keep = [(d, e) for d, e in zip(reqs, eng) if e != "ALLOC"]          # huge claimed sizes are exercised natively by the replay only
-    nat = mengine.native_eval(exe, ["resp %d %s" % (rnd.choice([0, 1, 7]), d.hex() or "-") for d, e in keep])
+    plans = [rnd.choice([0, 1, 7, rnd.randrange(2, 90)]) for _ in keep]
+    nat = mengine.native_eval(exe, ["resp %d %s" % (p_, d.hex() or "-") for (d, e), p_ in zip(keep, plans)])
     cannot = [e for d, e in keep if e.startswith("ENGINE-ERROR")]
     mism = [{"request": d.hex()[:120], "engine": e[:160], "native": n[:160]} for (d, e), n in zip(keep, nat) if not e.startswith("ENGINE-ERROR") and e != n]
     res["validation"] = {"inputs": len(keep), "mismatches": len(mism), "engine_cannot_run": len(cannot), "examples": mism[:3], "native_panics_seen": sum(1 for n in nat if n == "PANIC")}
     if mism:
+        for (d, e), p_, n in zip(keep, plans, nat):
+            if e != n and not e.startswith("ENGINE-ERROR") and p_ != 0:
+                n0 = mengine.native_eval(exe, ["resp 0 " + (d.hex() or "-")])[0]
+                if n0 == e and n0 != n:
+                    res["violations"].append({"template": "read segmentation", "replay": {"request_hex": d.hex(), "text": d.decode("latin-1")[:200], "kind": "segmentation", "plan": p_, "native_dev": n[:300],
+                                                                                          "native_release": mengine.native_eval(exe_rel, ["resp %d %s" % (p_, d.hex() or "-")])[0][:300], "expected": n0[:300],
+                                                                                          "failed": "the result depends on how the bytes are split across reads (read plan %d vs all-at-once)" % p_, "template": "segmentation", "key": "response:segmentation"}})
+                    return res
         res["machinery"].append("translator validation: engine and native response parser disagree on %d/%d inputs, e.g. %s" % (len(mism), len(keep), json.dumps(mism[0])[:400]))
         return res
     if cannot:
@@ -330,10 +339,11 @@ def run_part(tier, work, mir, which):
                     inp, _, _ = c02_req.instantiate(z3, tpl, conc)
                     data = bytes(inp)
                     exp = _expected_concrete(name, data, tier)
-                    nd = mengine.native_eval(exe, ["resp 0 " + (data.hex() or "-")])[0]
+                    pl = rnd.choice([0, 1, 1, rnd.randrange(2, max(3, len(data)))])
+                    nd = mengine.native_eval(exe, ["resp %d %s" % (pl, data.hex() or "-")])[0]
                     if exp is not None and nd != exp:
-                        nr = mengine.native_eval(exe_rel, ["resp 0 " + (data.hex() or "-")])[0]
-                        res["violations"].append({"template": name, "replay": {"request_hex": data.hex(), "text": data.decode("latin-1")[:200], "kind": "value", "failed": "native probe of a conforming response (the engine cannot run this tree)",
+                        nr = mengine.native_eval(exe_rel, ["resp %d %s" % (pl, data.hex() or "-")])[0]
+                        res["violations"].append({"template": name, "replay": {"request_hex": data.hex(), "text": data.decode("latin-1")[:200], "kind": "value", "plan": pl, "failed": "native probe of a conforming response under read plan %d (the engine cannot run this tree)" % pl,
                                                                                  "native_dev": nd[:300], "native_release": nr[:300], "expected": exp[:300], "template": name, "key": "response:value"}})
                         return res
         if which == "np":
@@ -438,9 +448,10 @@ def replay(d, path, pid):
     r = d["replay"]
     data = bytes.fromhex(r["request_hex"])
     log("replay %r (%s)" % (r["text"][:160], r["kind"]))
-    if r["kind"] == "value":
-        nd = mengine.native_eval(exe, ["resp 0 " + (data.hex() or "-")])[0]
-        nr = mengine.native_eval(exe_rel, ["resp 0 " + (data.hex() or "-")])[0]
+    if r["kind"] in ("value", "segmentation"):
+        pl = r.get("plan", 0)
+        nd = mengine.native_eval(exe, ["resp %d %s" % (pl, data.hex() or "-")])[0]
+        nr = mengine.native_eval(exe_rel, ["resp %d %s" % (pl, data.hex() or "-")])[0]
         log("   native (dev / release): %s / %s" % (nd[:200], nr[:200]))
         log("   the bytes denote      : %s" % r["expected"][:200])
         bad = nd != r["expected"] or nr != r["expected"]
